@@ -224,20 +224,7 @@ def run(prog, ctx):
         # coordinates handed in by the caller (they contain the boundary points), the old point list has to be built in exactly the same
         # way from the old mesh, branch by branch (boundary flag).  calculate_B builds inner-only coordinates itself: not concerned.
         if list_roles:
-            tdeep2 = Terms(fi.node)
             tshal = Terms(fi.node, max_depth=0)
-            lists = {}
-            for nm, bs in tshal.env.bindings.items():
-                entries = []
-                for b in bs:
-                    if b.kind != "assign" or b.value is None:
-                        continue
-                    bn = cf.node_of(b.stmt)
-                    if bn is None:
-                        continue
-                    facts = tuple(sorted((g for (g, gn) in R.dominating_guards(fi, bn, tshal) if any(isinstance(x, tuple) and len(x) == 3 and x[0] == "a" and x[2] == "boundary" for x in subterms(g))), key=repr))
-                    entries.append((facts, tdeep2.term(b.value)))
-                lists[nm] = entries
             for (PLn, OPLn, OBK) in sorted(list_roles, key=repr):
                 old_mesh = ("s", ("a", ("n", fi.self_name), "old_grid_coord"), OBK)
 
